@@ -184,10 +184,39 @@ def shard_respell(shard, nshards, tier, seed, scratch):
     return {'stats': stats.export(), 'failures': fails}
 
 
+def det_literal_batch(lang, drv=None):
+    """Deterministic part: every piece and every pair of two pieces as a literal in both quote styles, as a select item, inside a
+    WHERE comparison and as an UPDATE value; the literal must come out verbatim and must not disturb the rest of the query."""
+    skip_js = ('a.zz', 'b.k', '\\n', '\"\"\"', "'''", '`', '${x}')
+    pieces = [p for p in PIECES if not (lang == 'js' and p in skip_js)]
+    contents = list(pieces) + [p + q for p in pieces[::7] for q in pieces[3::11]]
+    A = [['x', 'y'], ['z', 'w']]
+    run = (lambda t: engine.run_table(t, copy.deepcopy(A), None, None, None)) if lang == 'py' else (lambda t: drv.query_table(t, copy.deepcopy(A), None, None, None))
+    n = 0
+    for content in contents:
+        for qc in ("'", '"'):
+            lit = lit_text(content, qc)
+            for text, want in (('select %s, a1' % lit, [[content, 'x'], [content, 'z']]),
+                               ('select a2 where %s == %s %s NR == 2' % (lit, lit, 'and' if lang == 'py' else '&&'), [['w']]),
+                               ('update a2 = %s where NR == 1' % lit, [['x', content], ['z', 'w']])):
+                r = run(text)
+                n += 1
+                if r['error'] is not None or r['out'] != want:
+                    raise Violation(lang + '-literal-not-verbatim', {'query': text, 'literal_content': content, 'got': r['out'], 'error': r['error'], 'expected': want})
+    return n
+
+
 def shard_literals(shard, nshards, tier, seed, scratch):
     total = 5000 if tier == 'quick' else 90000
     stats = Stats()
     fails = run_hypothesis(st_literal_case(), lambda c: check_literal(c, stats), max(1, total // nshards), seed, shrink_budget=300 if tier == 'quick' else 2000)
+    if shard == 0 and not fails:
+        try:
+            n = det_literal_batch('py')
+            stats.evaluations += n
+            stats.bump('deterministic-literal-queries', n)
+        except Violation as v:
+            fails.append({'clause': v.clause, 'detail': v.detail, 'case': {'kind': 'det-literals', 'lang': 'py'}})
     for f in fails:
         f['leg'] = 'literals'
     return {'stats': stats.export(), 'failures': fails}
@@ -269,6 +298,13 @@ def shard_js(shard, nshards, tier, seed, scratch):
     drv = jsdriver.Driver()
     try:
         fails = run_hypothesis(st_js_case(), lambda c: check_js(c, drv, stats), max(1, total // nshards), seed, shrink_budget=200 if tier == 'quick' else 1500)
+        if shard == 0 and not fails:
+            try:
+                n = det_literal_batch('js', drv)
+                stats.evaluations += n
+                stats.bump('deterministic-literal-queries-js', n)
+            except Violation as v:
+                fails.append({'clause': v.clause, 'detail': v.detail, 'case': {'kind': 'det-literals', 'lang': 'js'}})
     finally:
         drv.close()
     for f in fails:
@@ -277,6 +313,16 @@ def shard_js(shard, nshards, tier, seed, scratch):
 
 
 def replay(case, clause=None):
+    if case.get('kind') == 'det-literals':
+        if case['lang'] == 'js':
+            drv = jsdriver.Driver()
+            try:
+                det_literal_batch('js', drv)
+            finally:
+                drv.close()
+        else:
+            det_literal_batch('py')
+        return
     if 'q2' in case:
         drv = jsdriver.Driver()
         try:
